@@ -352,6 +352,16 @@ type AtSpec struct {
 	Uses []*SCall // lemma applications
 	Asserts []*Clause
 	Assumes []*Clause // environment assumptions on a value received at this point (listed in evidence)
+	Marks   []*MarkClause
+}
+
+// MarkClause: "mark [label] name(ref) if expr" - proves expr, then sets the ghost flag name on ref.
+// Callee contracts can require marked("name", x), so that every call site has to carry the proof.
+type MarkClause struct {
+	Label string
+	Name  string
+	Ref   SExpr
+	Cond  *Clause
 }
 
 type Param struct {
@@ -715,7 +725,7 @@ func ReadContractFile(path, pkgPath string) ([]*Contract, error) {
 						return nil, err
 					}
 				}
-			case "use", "assert", "assume-env":
+			case "use", "assert", "assume-env", "mark":
 				if curAt == nil {
 					return nil, fmt.Errorf("%s:%d: %s outside at", path, l.n, word)
 				}
@@ -794,6 +804,25 @@ func addAtClause(as *AtSpec, s string, mk func(string, string, int) (*Clause, er
 			return err
 		}
 		as.Asserts = append(as.Asserts, cl)
+	case "mark":
+		lab, r2 := splitLabel(rest)
+		j := strings.Index(r2, " if ")
+		if j < 0 {
+			return fmt.Errorf("line %d: mark needs name(ref) if expr", line)
+		}
+		head, err := ParseSpecExpr(strings.TrimSpace(r2[:j]))
+		if err != nil {
+			return err
+		}
+		hc, ok := head.(*SCall)
+		if !ok || len(hc.Args) != 1 {
+			return fmt.Errorf("line %d: mark needs name(ref)", line)
+		}
+		cl, err := mk("mark", "["+lab+"] "+strings.TrimSpace(r2[j+4:]), line)
+		if err != nil {
+			return err
+		}
+		as.Marks = append(as.Marks, &MarkClause{Label: lab, Name: hc.Fun, Ref: hc.Args[0], Cond: cl})
 	case "assume-env":
 		cl, err := mk("assume-env", rest, line)
 		if err != nil {
